@@ -424,9 +424,18 @@ theorem cleanK_mem : ∀ {ks : List (Str × PV)}, CleanK ks = true → ∀ {k v}
     · cases e; exact h.1
     · exact cleanK_mem h.2 hm
 
-theorem cleanK_dummy : ∀ (ks : List (Str × PV)), CleanK (ks.map (fun (k', _) => (k', PV.dflt))) = true
+theorem cleanK_dummy (f : Str × PV → Str × PV) (hf : ∀ x, (f x).2 = PV.dflt) :
+    ∀ (ks : List (Str × PV)), CleanK (ks.map f) = true
   | [] => rfl
-  | (k, v) :: rest => by simp only [List.map_cons, CleanK, Clean, cleanK_dummy rest, Bool.and_self]
+  | x :: rest => by
+    have h := hf x
+    rw [List.map_cons]
+    cases hx : f x with
+    | mk a b =>
+      rw [hx] at h
+      simp only at h
+      subst h
+      simp only [CleanK, Clean, cleanK_dummy f hf rest, Bool.and_self]
 
 theorem shapeOf'_inl {v : PV} {l : Option Loc} (h : makeKeys.shapeOf' v = .inl l) : v = .subkeys l := by
   cases v <;> simp [makeKeys.shapeOf'] at h
@@ -555,16 +564,18 @@ theorem mergeValue_np (recMerge : MergeRec) (hrec : RecMergeNP recMerge) (top : 
       | nil => exact absurd rfl hl
       | cons dl ls =>
         simp only [List.head?_cons]
-        obtain ⟨r1, r2⟩ := hrec kp (.mk dl.name top (dl.keys.map (fun (k', _) => (k', PV.dflt))) [] 0) bkeys st
-          (cleanK_dummy dl.keys) ⟨hd, ha⟩
         split
         · simp
         · rename_i p hp
           simp only [Res.panic.injEq]
           refine ⟨fun s hs => ?_, fun _ _ _ h => by simp at h⟩
-          subst hs; exact r1 _ hp
+          subst hs
+          refine (hrec _ _ _ _ ?_ ⟨hd, ha⟩).1 _ hp
+          exact cleanK_dummy _ (fun ⟨_, _⟩ => rfl) _
         · rename_i d' b' st1 hp
-          have hb := r2 _ _ _ hp
+          have hb : BkiOK b' := by
+            refine (hrec _ _ _ _ ?_ ⟨hd, ha⟩).2 _ _ _ hp
+            exact cleanK_dummy _ (fun ⟨_, _⟩ => rfl) _
           refine ⟨fun s h => by simp at h, fun v' lv' st' h => ?_⟩
           simp at h
           obtain ⟨_, rfl, _⟩ := h
@@ -626,5 +637,222 @@ theorem mergeValue_np (recMerge : MergeRec) (hrec : RecMergeNP recMerge) (top : 
         obtain ⟨_, rfl, _⟩ := h
         simp [LvOK]
     · simp
+
+theorem mergeKeys_np (recMerge : MergeRec) (hrec : RecMergeNP recMerge) (top : Str) (dto : DefaultTo) (path : KeyPath) :
+    ∀ (bki : BKI) (ks : List (Str × PV)) (accB : BKI) (st : St),
+      (bki.map Prod.fst).Pairwise (· ≠ ·) → BkiAll bki →
+      (∀ k ∈ bki.map Prod.fst, ∀ v, AMap.get? k ks = some v → Clean v = true) → BkiAll accB →
+      (∀ s, mergeKeys recMerge top dto path bki ks accB st = .panic s → s = "fuel") ∧
+      (∀ ks' b' st', mergeKeys recMerge top dto path bki ks accB st = .ok (ks', b', st') → BkiAll b')
+  | [], ks, accB, st, _, _, _, hb => by
+    refine ⟨?_, ?_⟩
+    · intro s h; simp [mergeKeys] at h
+    · intro ks' b' st' h
+      simp only [mergeKeys, Res.ok.injEq, Prod.mk.injEq] at h
+      obtain ⟨_, rfl, _⟩ := h
+      exact hb
+  | (k, lv) :: rest, ks, accB, st, hd, ha, hget, hb => by
+    simp only [List.map_cons, List.pairwise_cons] at hd
+    simp only [BkiAll] at ha
+    have ih := mergeKeys_np recMerge hrec top dto path rest
+    -- the value stored back under `k` is never read again: the remaining builder keys differ from `k`
+    have hget' : ∀ v', ∀ k' ∈ rest.map Prod.fst, ∀ v, AMap.get? k' (AMap.insert' k v' ks) = some v → Clean v = true := by
+      intro v' k' hk' v h
+      rw [Keys.get?_insert'] at h
+      have hne : k ≠ k' := hd.1 k' hk'
+      simp only [beq_iff_eq, hne, if_false] at h
+      exact hget k' (List.mem_cons_of_mem _ hk') v h
+    -- the rest of the loop body, for whatever value is merged
+    have body : ∀ (cur : PV) (st0 : St), Reduced cur = true →
+        (∀ s, (match mergeValue recMerge top dto (pushKey path k) cur lv st0 with
+          | .err e => .err e
+          | .panic p => .panic p
+          | .ok (v', lv', st') =>
+            mergeKeys recMerge top dto path rest (AMap.insert' k v' ks) (accB ++ [(k, lv')]) st' :
+              Res (List (Str × PV) × BKI × St)) = .panic s → s = "fuel") ∧
+        (∀ ks' b' st', (match mergeValue recMerge top dto (pushKey path k) cur lv st0 with
+          | .err e => .err e
+          | .panic p => .panic p
+          | .ok (v', lv', st') =>
+            mergeKeys recMerge top dto path rest (AMap.insert' k v' ks) (accB ++ [(k, lv')]) st' :
+              Res (List (Str × PV) × BKI × St)) = .ok (ks', b', st') →
+          BkiAll b') := by
+      intro cur st0 hred
+      obtain ⟨m1, m2⟩ := mergeValue_np recMerge hrec top dto (pushKey path k) cur lv st0 hred ha.1
+      cases hm : mergeValue recMerge top dto (pushKey path k) cur lv st0 with
+      | err e => simp
+      | panic p =>
+        simp only [Res.panic.injEq]
+        refine ⟨fun s hs => ?_, fun _ _ _ h => by simp at h⟩
+        subst hs; exact m1 _ hm
+      | ok x =>
+        obtain ⟨v', lv', st'⟩ := x
+        simp only
+        exact ih _ _ _ hd.2 ha.2 (hget' v') ((BkiAll_concat _ _ _).2 ⟨hb, m2 _ _ _ hm⟩)
+    cases hg : AMap.get? k ks with
+    | some v =>
+      obtain ⟨v2, hv2⟩ := reduce_ok_of_clean v (hget k (List.mem_cons_self) v hg)
+      have hred := reduce_reduced v v2 hv2
+      simp only [mergeKeys, hg, hv2]
+      exact body v2 st hred
+    | none =>
+      simp only [mergeKeys, hg, reduce]
+      exact body .dflt _ rfl
+
+theorem mergeLocale_np (suppress : Bool) (top : Str) (dto : DefaultTo) :
+    ∀ (fuel : Nat), RecMergeNP (mergeLocale suppress top dto fuel)
+  | 0 => by
+    intro kp loc bkeys st _ _
+    exact ⟨fun s h => by simp [mergeLocale] at h; exact h.symm, fun _ _ _ h => by simp [mergeLocale] at h⟩
+  | fuel + 1 => by
+    intro kp loc bkeys st hc hb
+    obtain ⟨m1, m2⟩ := mergeKeys_np (mergeLocale suppress top dto fuel) (mergeLocale_np suppress top dto fuel) top dto kp
+      bkeys loc.keys [] st hb.1 hb.2 (fun k _ v hg => cleanK_mem hc (Check.get?_mem hg)) (by simp [BkiAll])
+    refine ⟨?_, ?_⟩
+    · intro s h
+      simp only [mergeLocale] at h
+      split at h <;> try (simp at h; done)
+      rename_i p hp
+      simp at h; subst h
+      exact m1 _ hp
+    · intro l' b' st' h
+      have hk := (mergeLocale_keys suppress top dto (fuel + 1) kp loc bkeys st l' b' st' h).1
+      simp only [mergeLocale] at h
+      split at h <;> try (simp at h; done)
+      rename_i keys' b0 s0 hmk
+      simp at h
+      obtain ⟨_, rfl, _⟩ := h
+      exact ⟨by rw [hk]; exact hb.1, m2 _ _ _ hmk⟩
+
+/-! ### `checkLocalesInner` and `checkAll` -/
+
+theorem go_np (suppress : Bool) (fuel : Nat) (inherits : List (Str × Str)) (dl : Loc) (path : KeyPath) :
+    ∀ (others acc : List Loc) (bki : BKI) (ws : List Warning) (s : String),
+      (∀ l ∈ others, CleanK l.keys = true) → BkiOK bki →
+      checkLocalesInner.go suppress fuel inherits dl path others acc bki ws = .panic s → s = "fuel"
+  | [], acc, bki, ws, s, _, _, h => by simp [checkLocalesInner.go] at h
+  | l :: rest, acc, bki, ws, s, hc, hb, h => by
+    simp only [checkLocalesInner.go] at h
+    split at h <;> try (simp at h; done)
+    · rename_i p hp
+      simp at h; subst h
+      exact (mergeLocale_np _ _ _ fuel _ _ _ _ (hc l List.mem_cons_self) hb).1 _ hp
+    · rename_i l1 bki1 st1 hm
+      have hb1 := (mergeLocale_np _ _ _ fuel _ _ _ _ (hc l List.mem_cons_self) hb).2 _ _ _ hm
+      exact go_np suppress fuel inherits dl path rest _ _ _ s (fun x hx => hc x (List.mem_cons_of_mem _ hx)) hb1 h
+
+/-- `check_locales_inner`, for every fuel: no panic site other than the fuel is reached -/
+theorem checkLocalesInner_np (suppress : Bool) (fuel : Nat) (inherits : List (Str × Str)) (ns : Option Str)
+    (locales : List Loc) (ws : List Warning) (s : String) (hne : locales ≠ [])
+    (hl : ∀ l ∈ locales, CleanK l.keys = true ∧ SortedRTree l.keys)
+    (h : checkLocalesInner suppress fuel inherits ns locales ws = .panic s) : s = "fuel" := by
+  cases locales with
+  | nil => exact absurd rfl hne
+  | cons dl others =>
+    simp only [checkLocalesInner] at h
+    obtain ⟨c1, c2⟩ := hl dl List.mem_cons_self
+    split at h <;> try (simp at h; done)
+    · rename_i p hp
+      simp at h; subst h
+      exact (makeBuilderKeys_np _ fuel _ _ _ c1 c2).1 _ hp
+    · rename_i dl' bki strs hmk
+      have hb := (makeBuilderKeys_np _ fuel _ _ _ c1 c2).2 _ _ _ hmk
+      split at h <;> try (simp at h; done)
+      rename_i p hp
+      simp at h; subst h
+      exact go_np _ _ _ _ _ _ _ _ _ _ (fun x hx => (hl x (List.mem_cons_of_mem _ hx)).1) hb hp
+
+/-- on a world whose every locale list is non-empty, whose values are `Clean` (no unresolved foreign key, no
+    emptied subkeys) and whose key maps are sorted (hence duplicate-free) at every depth, the groups below
+    resolved foreign keys included, `check_locales` reaches none of its panic sites: the only `panic`
+    outcome is the fuel of the model -/
+theorem checkAll_no_panic_partial (inp : Pipeline.Input) :
+    ∀ (nss : List NS) (ws : List Warning) (s : String),
+      (∀ ns ∈ nss, ns.locales ≠ [] ∧ ∀ l ∈ ns.locales, CleanK l.keys = true ∧ SortedRTree l.keys) →
+      Pipeline.checkAll inp nss ws = .panic s → s = "fuel"
+  | [], ws, s, _, h => by simp [Pipeline.checkAll] at h
+  | ns :: rest, ws, s, hh, h => by
+    simp only [Pipeline.checkAll] at h
+    obtain ⟨h1, h2⟩ := hh ns List.mem_cons_self
+    split at h <;> try (simp at h; done)
+    · rename_i p hp
+      simp at h; subst h
+      exact checkLocalesInner_np _ _ _ _ _ _ _ h1 h2 hp
+    · rename_i locs bki ws' hok
+      split at h <;> try (simp at h; done)
+      rename_i p hp
+      simp at h; subst h
+      exact checkAll_no_panic_partial inp rest ws' _ (fun x hx => hh x (List.mem_cons_of_mem _ hx)) hp
+
+/-- the same in the vocabulary of the pipeline invariants: values `Clean`, key maps sorted (`SortedTree`), and
+    every leaf `Flat` (no group of subkeys below a foreign key: the state after `resolve_foreign_keys`) -/
+theorem checkAll_no_panic_of_flat (inp : Pipeline.Input) (nss : List NS) (ws : List Warning) (s : String)
+    (hh : ∀ ns ∈ nss, ns.locales ≠ [] ∧ ∀ l ∈ ns.locales, CleanK l.keys = true ∧ SortedTree l.keys ∧
+      ∃ (P : List Str → PV → Prop) (pre : List Str), (∀ p v, P p v → Flat v = true) ∧ TreeK P pre l.keys)
+    (h : Pipeline.checkAll inp nss ws = .panic s) : s = "fuel" := by
+  refine checkAll_no_panic_partial inp nss ws s ?_ h
+  intro ns hns
+  obtain ⟨h1, h2⟩ := hh ns hns
+  refine ⟨h1, fun l hl => ?_⟩
+  obtain ⟨c, st, P, pre, hP, ht⟩ := h2 l hl
+  exact ⟨c, st.1, sortedRK_of_flat P hP pre l.keys ht st.2⟩
+
+/-! ### why `SortedTree` alone is not enough: a counter-example to the statement without `SortedRK`
+
+The default locale stores under `a` a *resolved foreign key* whose value is a group with the key `x`
+twice (`SortedV` does not look below a foreign key, `Clean` does not look at key names).  `reduce`
+unwraps it, the builder keys below `a` get two nodes `x`; merging the second locale empties its group
+`x` at the first node (`subkeys none` is stored back) and reads it again at the second node:
+`reduce` panics with "reduce: empty subkeys". -/
+
+def cexGrp (ks : List (Str × PV)) : PV := .subkeys (some (.mk ['e'] ['e'] ks [] 0))
+def cexDl : Loc := .mk ['e','n'] ['e','n'] [(['a'], .fk (.set (cexGrp [(['x'], cexGrp []), (['x'], cexGrp [])])))] [] 0
+def cexFr : Loc := .mk ['f','r'] ['f','r'] [(['a'], cexGrp [(['x'], cexGrp [])])] [] 0
+def cexInp : Pipeline.Input := ⟨⟨['e','n'], [['e','n'], ['f','r']], none, [], []⟩, [], ⟨fun _ _ => none, fun _ _ _ => none⟩, false⟩
+
+theorem cex_hyps : ∀ ns ∈ [(⟨none, [cexDl, cexFr]⟩ : NS)],
+    ns.locales ≠ [] ∧ ∀ l ∈ ns.locales, CleanK l.keys = true ∧ SortedTree l.keys := by
+  intro ns hns
+  simp only [List.mem_singleton] at hns
+  subst hns
+  refine ⟨by simp, ?_⟩
+  intro l hl
+  simp only [List.mem_cons, List.not_mem_nil, or_false] at hl
+  rcases hl with rfl | rfl
+  · refine ⟨rfl, ?_, ?_⟩
+    · simp [Sorted, cexDl, Loc.keys]
+    · simp [SortedK, SortedV, cexDl, Loc.keys]
+  · refine ⟨rfl, ?_, ?_⟩
+    · simp [Sorted, cexFr, Loc.keys]
+    · simp [SortedK, SortedV, Sorted, cexFr, Loc.keys, cexGrp]
+
+theorem cex_panics : Pipeline.checkAll cexInp [⟨none, [cexDl, cexFr]⟩] [] = .panic "reduce: empty subkeys" := by rfl
+
+/-- the statement with `SortedTree` instead of `SortedRTree` is false -/
+theorem checkAll_no_panic_false :
+    ¬ (∀ (inp : Pipeline.Input) (nss : List NS) (ws : List Warning) (s : String),
+      (∀ ns ∈ nss, ns.locales ≠ [] ∧ ∀ l ∈ ns.locales, CleanK l.keys = true ∧ SortedTree l.keys) →
+      Pipeline.checkAll inp nss ws = .panic s → s = "fuel") := by
+  intro h
+  have := h cexInp _ [] _ cex_hyps cex_panics
+  simp at this
+
+/-- the hypotheses of `checkAll_no_panic_partial` are satisfiable by a world with nested groups and a
+    resolved foreign key -/
+example : ∀ ns ∈ [(⟨none, [cexFr, .mk ['f'] ['f'] [(['a'], cexGrp [(['x'], .fk (.set (.var ['v'] .none)))])] [] 0]⟩ : NS)],
+    ns.locales ≠ [] ∧ ∀ l ∈ ns.locales, CleanK l.keys = true ∧ SortedRTree l.keys := by
+  intro ns hns
+  simp only [List.mem_singleton] at hns
+  subst hns
+  refine ⟨by simp, ?_⟩
+  intro l hl
+  simp only [List.mem_cons, List.not_mem_nil, or_false] at hl
+  rcases hl with rfl | rfl
+  · refine ⟨rfl, ?_, ?_⟩
+    · simp [Sorted, cexFr, Loc.keys]
+    · simp [SortedRK, SortedRV, Sorted, cexFr, Loc.keys, cexGrp]
+  · refine ⟨rfl, ?_, ?_⟩
+    · simp [Sorted, Loc.keys]
+    · simp [SortedRK, SortedRV, Sorted, Loc.keys, cexGrp]
 
 end I18nVerif.PipeInv
